@@ -76,6 +76,33 @@ fn build_dir(job: &Value, scratch: &Path) -> std::io::Result<(PathBuf, PathBuf)>
             }
         }
     }
+    if has(job, "stale_results") {
+        // the project was edited after HULC wrote its result files: every window was renamed
+        // in the .ctehexml, KyGananciasSolares.txt / NewBDL_O.tbl still carry the old names
+        if let Ok(rd) = std::fs::read_dir(&proj) {
+            for e in rd.flatten() {
+                let p = e.path();
+                if p.extension().map(|x| x == "ctehexml").unwrap_or(false) {
+                    if let Ok(t) = std::fs::read_to_string(&p) {
+                        let mut out = String::with_capacity(t.len() + 1024);
+                        for l in t.split_inclusive('\n') {
+                            let tr = l.trim_end();
+                            if tr.trim_start().starts_with('"') && tr.ends_with("= WINDOW") {
+                                if let Some(q) = tr.rfind('"') {
+                                    out.push_str(&l[..q]);
+                                    out.push_str("_r2");
+                                    out.push_str(&l[q..]);
+                                    continue;
+                                }
+                            }
+                            out.push_str(l);
+                        }
+                        let _ = std::fs::write(&p, out);
+                    }
+                }
+            }
+        }
+    }
     if has(job, "extra_files") {
         std::fs::write(proj.join("LEEME.txt"), b"notas del proyecto\n{\"no\": \"es el modelo\"}\n")?;
         std::fs::write(proj.join("salida_anterior.json"), b"{\"meta\": {}}\n")?;
